@@ -139,6 +139,7 @@ type answers struct {
 	have                       bool
 	caseR                      []string // generalised model, per spelling
 	caseTree                   []string // tree model, per spelling it can express
+	caseAlt                    []string // multi-operation documents: the case with the other operation's variable definitions
 	lit, vr, spec, goVar       string
 	treeLit, treeVar, treeSpec string
 }
@@ -150,6 +151,7 @@ func (h *harness) evalGroups(groups []*Group, random int, report bool) map[*Grou
 		p        *prepared
 		caseR    []int
 		caseTree []int
+		caseAlt  []int
 		direct   [7]int
 	}
 	var lines []string
@@ -195,7 +197,18 @@ func (h *harness) evalGroups(groups []*Group, random int, report bool) map[*Grou
 			if pc, err := p.cases[i].parse(); err == nil {
 				tree = p.cases[i].treeLine(pc)
 			}
+			alt := ""
+			if p.cases[i].AltVarDefs != "" {
+				// the whole document is valid only if the other operation is valid too
+				other := p.cases[i]
+				other.VarDefs = other.AltVarDefs
+				if x, err := hx.ParseSexp(other.VarDefs); err == nil {
+					lines = h.registerStrings(lines, x)
+				}
+				alt, tree = other.modelLine(), ""
+			}
 			s.caseTree = append(s.caseTree, add(tree))
+			s.caseAlt = append(s.caseAlt, add(alt))
 		}
 		for i := range s.direct {
 			s.direct[i] = -1
@@ -260,6 +273,7 @@ func (h *harness) evalGroups(groups []*Group, random int, report bool) map[*Grou
 		for i := range s.caseR {
 			an.caseR = append(an.caseR, get(s.caseR[i]))
 			an.caseTree = append(an.caseTree, get(s.caseTree[i]))
+			an.caseAlt = append(an.caseAlt, get(s.caseAlt[i]))
 		}
 		an.lit, an.vr, an.spec, an.goVar = get(s.direct[0]), get(s.direct[1]), get(s.direct[2]), get(s.direct[3])
 		an.treeLit, an.treeVar, an.treeSpec = get(s.direct[4]), get(s.direct[5]), get(s.direct[6])
@@ -483,15 +497,25 @@ func (h *harness) judge(p *prepared, an *answers) []failure {
 		tie := ""
 		if an.have {
 			o1, o3, ok := splitRes(an.caseR[i])
+			if ok && an.caseAlt[i] != "" {
+				// a document is valid when every operation in it is
+				if a1, _, okA := splitRes(an.caseAlt[i]); !okA {
+					ok = false
+				} else if a1 == "invalid" {
+					o1 = "invalid"
+				}
+			}
 			if !ok {
-				tie = "unexpected model reply " + an.caseR[i]
+				tie = "unexpected model reply " + an.caseR[i] + " " + an.caseAlt[i]
 			} else {
 				if implOutcome != o1 {
 					tie = fmt.Sprintf("outcome: implementation %s, model %s", implOutcome, o1)
 				}
 				h.ob(obOutcome, "correspondence", tie == "", tie+" | "+query+" "+variables)
 				ungatedTie := ""
-				if canon(o.Ungated) != o3 {
+				if o.Ungated == "syntax-error" && o.Class == "invalid" {
+					// the document does not parse: nothing to hand to the exported functions
+				} else if canon(o.Ungated) != o3 {
 					ungatedTie = fmt.Sprintf("ungated coercion: implementation %s, model %s", o.Ungated, o3)
 					tie = strings.TrimSpace(tie + " " + ungatedTie)
 				}
@@ -519,7 +543,7 @@ func (h *harness) judge(p *prepared, an *answers) []failure {
 				treeTie := ""
 				if !ok {
 					treeTie = "unexpected tree-model reply " + an.caseTree[i]
-				} else if implOutcome != t1 || canon(o.Ungated) != t3 {
+				} else if implOutcome != t1 || (canon(o.Ungated) != t3 && !(o.Ungated == "syntax-error" && o.Class == "invalid")) {
 					treeTie = fmt.Sprintf("tree model: implementation %s (ungated %s), model %s (ungated %s)", implOutcome, o.Ungated, t1, t3)
 				}
 				h.ob(obTree, "correspondence", treeTie == "", treeTie+" | "+query+" "+variables)
@@ -1320,6 +1344,7 @@ func main() {
 	run.Note("exhaustive part: 7 scalars + 2 enums × wrapper forms × every boundary value (in 2–5 list shapes) × the deterministic spellings; @skip/@include × 8 values")
 	h.randomComposite(run.Scale(4000, 150000), run.Scale(4, 6))
 	h.polymorphic(run.Scale(700, 20000))
+	h.documentShapes(run.Scale(500, 12000))
 
 	h.finish()
 }
